@@ -31,6 +31,24 @@ PROPS = {
             dict(name="k1probe", run="^TestC02K1_", quick=1500, thorough=20000, shards_quick=1, shards_thorough=1),
         ],
     ),
+    "C03": dict(
+        rule="case = history: 1-4 tests (prefix-related names, fixed call programs of 1-13 slots over 1-2 files) x 1-3 processes (mode: default / UPDATE_SNAPS=true / other / CI) "
+             "x 1-4 executions per process (re-executions, partial executions) whose calls are interleaved like parallel tests, with failing calls (invalid JSON/YAML, failing matcher), "
+             "per-call Update options and pre-existing foreign entries; after EVERY call the observed outcome is compared with a slot model and both files are re-parsed with the reference parser. "
+             "non-trivial = >= 2 tests and at least one of: prefix-related names, re-execution, interleaving, calls after a failing call, >= 10 calls, header-like body, per-call update option; "
+             "distinct = distinct canonical JSON of the history",
+        assumptions=ASSUME_WB + ["interleavings are sequentially consistent (one call at a time); real parallelism is C06"],
+        stages=[dict(name="history", run="^TestC03_", quick=600, thorough=5000, shards_quick=4, shards_thorough=16)],
+    ),
+    "C04": dict(
+        rule="case = file recorded by a first process (1-3 tests, 1-12 calls each over all five APIs, plus foreign pre-existing entries), a second process with updating enabled "
+             "(UPDATE_SNAPS=true, or Update(true) under any UPDATE_SNAPS) in which a generated subset of calls changes value (shorter, longer, empty, terminator/header-like, multi-line), "
+             "then a read-only process. Checked per call: outcome, no write at all for unchanged values (mtime), only the addressed file written, entry list re-parsed with the reference parser "
+             "(no residue, others byte-identical and in place), standalone files equal the new formatted value. non-trivial = a changed entry that is shorter, or >= 2 changed entries, "
+             "or a changed non-last entry, or a standalone update; distinct = distinct canonical JSON",
+        assumptions=ASSUME_WB + ["'no write' is observed through mtimes: every file is aged to a fixed past instant before each call"],
+        stages=[dict(name="update", run="^TestC04_", quick=600, thorough=5000, shards_quick=4, shards_thorough=16)],
+    ),
     "C13": dict(
         rule="cases are ordered pairs of texts (+ colour flag): exhaustive over line sequences of a 3-letter alphabet, "
              "random pairs from the hostile line alphabet related by 1-3 edits, and large texts (>10 / >=200 lines with popular lines). "
